@@ -301,6 +301,28 @@ Theorem C03_psk_only_as_coded :
 Proof. exact psk_only_as_coded. Qed.
 Print Assumptions C03_psk_only_as_coded.
 
+(* ---- DTLS 1.3: an ACK completes nothing (seeded change C03d as regression witness) *)
+Theorem C03_server13_pending_accept_implies_checks :
+  forall fin acked k v, p_from_client v = true -> flight13_pending_with false fin acked k v = Accept ->
+    fin = true /\ server13_required k v = true /\ p_fin_valid v = true.
+Proof. exact server13_pending_accept_implies_checks. Qed.
+Print Assumptions C03_server13_pending_accept_implies_checks.
+
+Theorem C03_ack_completes_refuted :
+  exists k v, k_policy k = RequireAndVerifyClientCert /\ p_from_client v = true /\ p_fin_valid v = false /\
+    flight13_pending_with true false true k v = Accept /\ server13_required k v = false /\
+    flight13_pending_with false false true k v = Wait.
+Proof. exact ack_completes_refuted. Qed.
+Print Assumptions C03_ack_completes_refuted.
+
+Theorem C03_pending_as_coded :
+  if server13_ack_of_own_flight_completes
+  then exists k v, k_policy k = RequireAndVerifyClientCert /\ p_from_client v = true /\
+         flight13_pending false true k v = Accept /\ server13_required k v = false
+  else forall fin acked k v, flight13_pending fin acked k v = Accept -> fin = true /\ flight13 k v = Accept.
+Proof. exact pending_as_coded. Qed.
+Print Assumptions C03_pending_as_coded.
+
 (* non-vacuity: an honest certificate server is accepted, the same server under another CA is not *)
 Example C03_example_accept :
   client12 (mk_ccfg false false false false false)
